@@ -155,9 +155,21 @@ def shard_extra(tier: str, seed: int, shard: int, nshards: int) -> dict:
     nseeds = 4 if tier == "quick" else 11
     pool: list = []
 
+    @st.composite
+    def pool_case(draw: Any) -> Any:
+        """half of the pool: chain / inline templates under the default traits (several passes and name generation involved)"""
+        from ..env import DEFAULT_TRAITS  # pylint: disable=import-outside-toplevel
+        from ..gen import templates  # pylint: disable=import-outside-toplevel
+
+        if draw(st.booleans()):
+            return draw(c01.strategy(tier))
+        fn = draw(st.sampled_from([templates.minmax_chains_program, templates.minmax_chains_program, templates.sum_chains_program, templates.symmetry_program, templates.inline_program, templates.dependency_program]))
+        src, name = fn(draw)
+        return common.build_case(draw, src, "template:" + name, tier, list(DEFAULT_TRAITS), decl="free", count=1)
+
     @hypothesis.seed(derive_seed(seed, PID, shard, "pool"))
     @settings(max_examples=pool_size * 3, database=None, deadline=None, phases=[Phase.generate], suppress_health_check=list(HealthCheck))
-    @given(c01.strategy(tier))
+    @given(pool_case())
     def collect(case: Case) -> None:
         prg = oracle.try_parse(case.src)
         if prg is None or len(pool) >= pool_size:
